@@ -1,6 +1,7 @@
 """C05 - Storage and interchange are lossless (structural clauses)."""
 from __future__ import annotations
 
+from . import scopes
 from sa.schema import load_schemas
 from . import lib_schema, lib_module, lib_py
 
@@ -13,6 +14,7 @@ EXPLANATION = ("Schema completeness of equals/copy/dump/load for every column of
 def run(ctx):
     P = ctx.program()
     py = ctx.python()
+    ps, ms = scopes.py_scope("C05"), scopes.module_scope("C05")
     S = load_schemas(P)
     ctx.need(len(S) == 8, "eight table structs")
     lib_schema.equals(ctx, P, S)
@@ -20,8 +22,13 @@ def run(ctx):
     lib_schema.append_columns(ctx, P, S)
     lib_schema.collection(ctx, P)
     lib_schema.read_format(ctx, P)
-    lib_schema.argname(ctx, P)
+    io = lambda f: any(t in f for t in ("_copy", "_load", "_dump", "_set_columns", "_takeset_columns", "_append_columns", "read_", "write_"))
+    lib_schema.argname(ctx, P, tus=("tables",), funcs=io)
     lib_module.setvbuf_before_load(ctx, P)
-    lib_module.array_flags(ctx, P)
-    lib_py.kw_forward(ctx, py, mods=("trees", "tables"))
-    lib_py.unused_params(ctx, py, mods=("trees", "tables", "util"))
+    lib_module.array_flags(ctx, P, only=ms)
+    lib_module.parsed_used(ctx, P, only=ms)
+    lib_module.options_plumbing(ctx, P, funcs={f for f in ("IndividualTable_equals", "NodeTable_equals", "EdgeTable_equals", "MigrationTable_equals",
+                                                           "SiteTable_equals", "MutationTable_equals", "PopulationTable_equals", "ProvenanceTable_equals",
+                                                           "TableCollection_equals", "TableCollection_load", "TreeSequence_load")})
+    lib_py.kw_forward(ctx, py, mods=("trees", "tables"), only=ps)
+    lib_py.unused_params(ctx, py, mods=("trees", "tables", "util"), only=ps)
